@@ -50,6 +50,10 @@ pub struct Cfg {
     /// proof of work: 0 = Pow::Dummy, 1 = Eaglesong, 2 = EaglesongBlake2b (real nonces are mined by the model)
     #[serde(default)]
     pub pow: u8,
+    /// generate conflicting twins of candidate transactions that break one capacity / DAO rule;
+    /// only blocks with the mutation "commit_bad_tx" commit them
+    #[serde(default)]
+    pub bad_twins: bool,
 }
 
 impl Cfg {
@@ -74,6 +78,7 @@ impl Cfg {
             max_block_proposals: 1_500,
             wlock_cells: 0,
             pow: 0,
+            bad_twins: false,
         }
     }
 }
@@ -230,6 +235,9 @@ pub fn mmr_bag(peaks: &[(u32, packed::HeaderDigest)]) -> packed::HeaderDigest {
 pub struct MTx {
     pub tx: TransactionView,
     pub fee: u64,
+    /// Some(rule) = the transaction breaks exactly that transaction rule wherever it is committed
+    /// (a conflicting twin of a valid candidate); valid blocks never commit it
+    pub bad: Option<&'static str>,
     pub id: ProposalShortId,
 }
 
@@ -823,9 +831,15 @@ impl World {
         if let Some(i) = self.tx_by_id.get(&id) {
             return *i;
         }
-        self.txs.push(MTx { tx, fee, id: id.clone() });
+        self.txs.push(MTx { tx, fee, id: id.clone(), bad: None });
         self.tx_by_id.insert(id, self.txs.len() - 1);
         self.txs.len() - 1
+    }
+
+    pub fn add_bad_tx(&mut self, tx: TransactionView, rule: &'static str) -> usize {
+        let i = self.add_tx(tx, 0);
+        self.txs[i].bad = Some(rule);
+        i
     }
 
     /// Is `cell` spendable in a block with header epoch `ep_frac` (cellbase maturity)?
@@ -943,7 +957,34 @@ impl World {
                 let wl = rng.urange(0, 12);
                 tb = tb.witness(Bytes::from(rng.bytes(wl)).pack());
             }
-            self.add_tx(tb.build(), fee);
+            let good = tb.build();
+            self.add_tx(good.clone(), fee);
+            // one candidate in six gets a conflicting twin that breaks one capacity rule
+            if self.cfg.bad_twins && rng.chance(1, 6) {
+                let mut outs: Vec<CellOutput> = good.outputs().into_iter().collect();
+                let last = outs.len() - 1;
+                let lc: Capacity = outs[last].capacity().into();
+                let twin = if rng.chance(1, 2) {
+                    // outputs exceed inputs by one shannon
+                    outs[last] = outs[last].clone().as_builder().capacity(Capacity::shannons(lc.as_u64() + fee + 1)).build();
+                    Some((good.as_advanced_builder().set_outputs(outs).build(), "outputs_exceed_inputs"))
+                } else {
+                    // an extra output one shannon below its occupied size, paid for by the last output
+                    let extra0 = CellOutput::new_builder().lock(self.lock(&[0xba, 0xd0])).build();
+                    let need = occupied(&extra0, 0) - 1;
+                    let data_len = good.outputs_data().get(last).map(|d| d.raw_data().len()).unwrap_or(0);
+                    if lc.as_u64() >= need + occupied(&outs[last], data_len) {
+                        outs[last] = outs[last].clone().as_builder().capacity(Capacity::shannons(lc.as_u64() - need)).build();
+                        outs.push(extra0.as_builder().capacity(Capacity::shannons(need)).build());
+                        Some((good.as_advanced_builder().set_outputs(outs).output_data(Bytes::new()).build(), "output_below_occupied_size"))
+                    } else {
+                        None
+                    }
+                };
+                if let Some((t, rule)) = twin {
+                    self.add_bad_tx(t, rule);
+                }
+            }
         }
 
         // --- NervosDAO traffic against the parent state: deposits, phase-1 and phase-2 withdrawals
@@ -1008,7 +1049,24 @@ impl World {
                             .output_data(Bytes::new())
                             .witness(wa.as_bytes().pack())
                             .build();
-                        self.add_tx(tx, fee);
+                        self.add_tx(tx.clone(), fee);
+                        if self.cfg.bad_twins && rng.chance(1, 2) {
+                            let o = tx.outputs().get(0).unwrap();
+                            if rng.chance(1, 2) {
+                                // claims one shannon more than deposit plus interest
+                                let t = tx.as_advanced_builder().set_outputs(vec![o.as_builder().capacity(Capacity::shannons(w + 1)).build()]).build();
+                                self.add_bad_tx(t, "dao_withdraw_exceeds_maximum");
+                            } else if w - fee > 2 * occupied(&o, 0) {
+                                // a second output far below its occupied size
+                                let small = CellOutput::new_builder().lock(self.lock(&[0xba, 0xd1])).capacity(Capacity::shannons(1)).build();
+                                let t = tx
+                                    .as_advanced_builder()
+                                    .set_outputs(vec![o.as_builder().capacity(Capacity::shannons(w - fee - 1)).build(), small])
+                                    .output_data(Bytes::new())
+                                    .build();
+                                self.add_bad_tx(t, "dao_withdraw_output_below_occupied_size");
+                            }
+                        }
                     }
                 }
                 _ => {}
@@ -1039,7 +1097,7 @@ impl World {
                     break;
                 }
                 let t = &self.txs[*ti];
-                if !win.contains(&t.id) || pst.txs.contains_key(&t.tx.hash()) {
+                if t.bad.is_some() || !win.contains(&t.id) || pst.txs.contains_key(&t.tx.hash()) {
                     continue;
                 }
                 let ok = t.tx.inputs().into_iter().all(|i| {
@@ -1086,6 +1144,14 @@ impl World {
             }
             if rng.chance(2, 3) {
                 proposals.push(t.id.clone());
+            }
+        }
+        if self.cfg.bad_twins {
+            // rule-breaking twins of NervosDAO withdrawals are proposed as soon as they exist
+            for t in self.txs.iter() {
+                if t.bad.map(|b| b.starts_with("dao")).unwrap_or(false) && !proposals.contains(&t.id) && proposals.len() < recipe.propose + 2 && t.tx.inputs().into_iter().all(|i| pst.cells.contains_key(&i.previous_output())) {
+                    proposals.push(t.id.clone());
+                }
             }
         }
 
@@ -1280,7 +1346,7 @@ impl World {
                 let mut extra: Option<usize> = None;
                 for ti in order.iter() {
                     let t = &self.txs[*ti];
-                    if !win.contains(&t.id) || pst.txs.contains_key(&t.tx.hash()) || commits.contains(ti) {
+                    if t.bad.is_some() || !win.contains(&t.id) || pst.txs.contains_key(&t.tx.hash()) || commits.contains(ti) {
                         continue;
                     }
                     let locked = t.tx.inputs().into_iter().any(|i| {
@@ -1300,12 +1366,50 @@ impl World {
                     structural = Some("structural:commit_immature_since");
                 }
             }
+            Some("commit_bad_tx") => {
+                // a proposed transaction whose inputs, deps and time locks are all fine here but which
+                // breaks one transaction rule of its own
+                let mut extra: Option<(usize, &'static str)> = None;
+                // the rarer NervosDAO kinds first
+                let mut bad_order: Vec<usize> = order.iter().cloned().filter(|i| self.txs[*i].bad.is_some()).collect();
+                bad_order.sort_by_key(|i| !self.txs[*i].bad.unwrap_or("").starts_with("dao"));
+                for ti in bad_order.iter() {
+                    let t = &self.txs[*ti];
+                    let Some(rule) = t.bad else { continue };
+                    if !win.contains(&t.id) || pst.txs.contains_key(&t.tx.hash()) || commits.contains(ti) || number <= self.cfg.w_close {
+                        continue;
+                    }
+                    let locked = t.tx.inputs().into_iter().any(|i| {
+                        let sv: u64 = i.since().into();
+                        sv != 0 && !(sv >> 56 == 0 && number >= sv)
+                    });
+                    let ok = t.tx.inputs().into_iter().all(|i| cells.get(&i.previous_output()).map(|c| self.mature(c, frac)).unwrap_or(false))
+                        && t.tx.cell_deps().into_iter().all(|d| cells.contains_key(&d.out_point()))
+                        && t.tx.header_deps().into_iter().all(|h| self.by_hash.get(&h).map(|i| pst.chain.get(self.blocks[*i].number as usize) == Some(i)).unwrap_or(false));
+                    if ok && !locked {
+                        extra = Some((*ti, rule));
+                        break;
+                    }
+                }
+                if let Some((ti, rule)) = extra {
+                    for i in self.txs[ti].tx.inputs().into_iter() {
+                        cells.remove(&i.previous_output());
+                    }
+                    commits.push(ti);
+                    structural = Some(match rule {
+                        "outputs_exceed_inputs" => "structural:commit_bad_tx:outputs_exceed_inputs",
+                        "output_below_occupied_size" => "structural:commit_bad_tx:output_below_occupied_size",
+                        "dao_withdraw_exceeds_maximum" => "structural:commit_bad_tx:dao_withdraw_exceeds_maximum",
+                        _ => "structural:commit_bad_tx:dao_withdraw_output_below_occupied_size",
+                    });
+                }
+            }
             Some("commit_unproposed") => {
                 // a transaction whose inputs are live and mature but whose id is not in the window
                 let mut extra: Option<usize> = None;
                 for ti in order.iter() {
                     let t = &self.txs[*ti];
-                    if win.contains(&t.id) || pst.txs.contains_key(&t.tx.hash()) || commits.contains(ti) {
+                    if t.bad.is_some() || win.contains(&t.id) || pst.txs.contains_key(&t.tx.hash()) || commits.contains(ti) {
                         continue;
                     }
                     let ok = t.tx.inputs().into_iter().all(|i| cells.get(&i.previous_output()).map(|c| self.mature(c, frac)).unwrap_or(false))
@@ -1323,7 +1427,7 @@ impl World {
             }
             _ => {}
         }
-        if matches!(recipe.mutation.as_deref(), Some("uncle_sibling" | "uncle_duplicate" | "uncle_double_inclusion" | "commit_unproposed" | "uncle_unknown_parent" | "commit_immature_since" | "uncle_too_many" | "uncle_other_epoch" | "uncle_pow_invalid")) {
+        if matches!(recipe.mutation.as_deref(), Some("uncle_sibling" | "uncle_duplicate" | "uncle_double_inclusion" | "commit_unproposed" | "uncle_unknown_parent" | "commit_immature_since" | "uncle_too_many" | "uncle_other_epoch" | "uncle_pow_invalid" | "commit_bad_tx")) {
             recipe.mutation = structural.map(|s| s.to_string());
         }
         if recipe.mutation.is_none() {
